@@ -5,6 +5,7 @@ use crate::engine::panics;
 use crate::engine::rng::hash64;
 use crate::engine::tape::Gen;
 use crate::gens::prog::{self, Layout, PG};
+use crate::gens::sumgen;
 use crate::props::c01::{self, gen_inputs, line_candidates};
 use crate::runners::exec::{self, Exec, Inputs, RunOpts};
 use crate::runners::front;
@@ -19,6 +20,10 @@ pub const KF_UNIT_VALUE: &str = "C03-unit-value-accepted";
 /// for a number, arity mismatches, arrays, ...) which then crash code generation or a runtime at
 /// ever new sites: crashes of accepted MUTANTS are attributed to this one finding
 pub const KF_ILLTYPED: &str = "C03-typechecker-accepts-ill-typed-mutants";
+/// `type rec T = A | B(T)`: a constructor whose only payload is the recursive type crashes the VM
+pub const KF_SUM_LONE_REC: &str = "C03-sum-constructor-with-lone-recursive-payload";
+/// exhaustiveness of a constructor match is not checked when the scrutinee's type is inferred
+pub const KF_SUM_UNANNOTATED: &str = "C03-match-exhaustiveness-unchecked-without-annotation";
 
 pub fn prop() -> Option<&'static dyn Prop> {
     Some(&C03)
@@ -151,14 +156,71 @@ impl Prop for C03 {
             Tier::Quick => vec![
                 Space { name: "gen", size: 2500, exhaustive: false, chunk: 50, case_timeout_s: 20.0, what: "generated well-typed core-language programs x run lengths" },
                 Space { name: "mutant", size: 3500, exhaustive: false, chunk: 70, case_timeout_s: 20.0, what: "generated programs after 1-2 type-changing mutations (near-miss programs)" },
+                Space { name: "sum", size: 3000, exhaustive: false, chunk: 100, case_timeout_s: 20.0, what: "generated programs over user-declared (also recursive) sum types with constructor matches" },
+                Space { name: "sum-illtyped", size: 3000, exhaustive: false, chunk: 100, case_timeout_s: 20.0, what: "the same with one deliberate type error (missing arm, duplicate arm in place of a missing one, constructor arity, float for a sum value, unknown constructor): must be refused" },
             ],
             Tier::Thorough => vec![
                 Space { name: "gen", size: 80_000, exhaustive: false, chunk: 200, case_timeout_s: 20.0, what: "generated well-typed core-language programs x run lengths" },
                 Space { name: "mutant", size: 160_000, exhaustive: false, chunk: 200, case_timeout_s: 20.0, what: "generated programs after 1-2 type-changing mutations (near-miss programs)" },
+                Space { name: "sum", size: 100_000, exhaustive: false, chunk: 200, case_timeout_s: 20.0, what: "generated programs over user-declared (also recursive) sum types with constructor matches" },
+                Space { name: "sum-illtyped", size: 100_000, exhaustive: false, chunk: 200, case_timeout_s: 20.0, what: "the same with one deliberate type error: must be refused" },
             ],
         }
     }
     fn run(&self, space: &str, _index: u64, g: &mut Gen, cx: &Cx) -> CaseResult {
+        if space == "sum" || space == "sum-illtyped" {
+            // programs over user-declared sum types; the second space holds variants that the
+            // checker must refuse (for a reason the generator states)
+            let mut scfg = sumgen::SumCfg::default();
+            let mut soff = vec![];
+            if cx.excluded(KF_SUM_LONE_REC) {
+                scfg.lone_recursive_payload = false;
+                soff.push(KF_SUM_LONE_REC);
+            }
+            if cx.excluded(KF_SUM_UNANNOTATED) {
+                scfg.unannotated_params = false;
+                soff.push(KF_SUM_UNANNOTATED);
+            }
+            let p = sumgen::generate(g, &scfg);
+            let inputs = gen_inputs(g);
+            let n = *g.pick(&[4u64, 1, 8]);
+            if space == "sum" {
+                let src = sumgen::render(&p);
+                let mut classes = vec!["mode:sum".to_string()];
+                if p.types.iter().any(|t| t.rec) {
+                    classes.push("sum:recursive".into());
+                }
+                if p.fns.iter().any(|f| f.arms.iter().any(|a| a.ctor.is_none())) {
+                    classes.push("sum:wildcard".into());
+                }
+                let mut r = finish(&src, &inputs, n, Some(1), classes, false, cx);
+                for id in &soff {
+                    r.count(&format!("generator_switch_off:{id}"), 1);
+                }
+                return r;
+            }
+            let Some((q, kind)) = sumgen::ill_typed(&p, g) else { return CaseResult::discard("no-place-for-the-type-error") };
+            let src = sumgen::render(&q);
+            let mut r = finish(&src, &inputs, n, None, vec!["mode:sum-illtyped".to_string(), format!("ill:{kind}")], false, cx);
+            if r.classes.iter().any(|c| c == "accepted") {
+                // accepted although ill typed: that alone breaks the property's last sentence
+                let what = match &r.status {
+                    Status::Fail { sig, .. } => format!("and then: {sig}"),
+                    _ => "and ran".to_string(),
+                };
+                let mut f = CaseResult::fail(r.hash, format!("c03:ill-typed-accepted:{kind}"), format!("a program with a deliberate type error ({kind}) was accepted {what}"));
+                f.classes = std::mem::take(&mut r.classes);
+                f.render = Some(json!({"text": src, "inputs": inputs.describe(), "n": n}));
+                f.direct = r.direct.take();
+                if let Some(d) = f.direct.as_mut() {
+                    d["must_reject"] = json!(kind);
+                }
+                f.nontrivial = true;
+                return f;
+            }
+            r.nontrivial = true;
+            return r;
+        }
         let (mut cfg, off) = c01::pcfg(cx);
         // switches that only cause VM/WASM disagreement (not crashes) stay on for this property
         cfg.raw_conditions = true;
@@ -192,7 +254,21 @@ impl Prop for C03 {
         let t = input.get("text")?.as_str()?;
         let inputs = Inputs { kind: input.get("input_kind").and_then(|v| v.as_u64()).unwrap_or(1) as u8, scale: input.get("input_scale").and_then(|v| v.as_f64()).unwrap_or(1.0) };
         let n = input.get("n").and_then(|v| v.as_u64()).unwrap_or(4);
-        Some(finish(t, &inputs, n, None, vec![], false, cx))
+        let mut r = finish(t, &inputs, n, None, vec![], false, cx);
+        if let Some(kind) = input.get("must_reject").and_then(|v| v.as_str()) {
+            // a pinned program with a deliberate type error: acceptance is the failure
+            if r.classes.iter().any(|c| c == "accepted") {
+                let mut f = CaseResult::fail(r.hash, format!("c03:ill-typed-accepted:{kind}"), format!("a program with a deliberate type error ({kind}) was accepted"));
+                f.render = r.render.take();
+                f.direct = r.direct.take();
+                if let Some(d) = f.direct.as_mut() {
+                    d["must_reject"] = json!(kind);
+                }
+                f.nontrivial = true;
+                return Some(f);
+            }
+        }
+        Some(r)
     }
     fn shrink_direct(&self, input: &Value) -> Vec<Value> {
         let Some(t) = input.get("text").and_then(|v| v.as_str()) else { return vec![] };
@@ -222,6 +298,6 @@ impl Prop for C03 {
         vec!["memory errors are observed through the bounds assertions of the verif-hooks feature (state storage, globals, open upvalues, closure handles) plus the debug assertions of the VM; accesses outside those sites are not instrumented".into(), "runtime preconditions documented by the runtime itself (scheduling into the past, split_head of an empty array) are not counted".into()]
     }
     fn required_classes(&self, _tier: Tier) -> Vec<&'static str> {
-        vec!["accepted", "rejected", "accepted-mutant", "ran", "mode:gen", "mode:mutant"]
+        vec!["accepted", "rejected", "accepted-mutant", "ran", "mode:gen", "mode:mutant", "mode:sum", "mode:sum-illtyped", "sum:recursive"]
     }
 }
